@@ -262,7 +262,7 @@ func c06Static(c *core.Ctx) {
 	if c.Thorough() {
 		repeats = 16
 	}
-	sz := sgen.Size{Agencies: 2, Routes: 4, Stops: 8, Transfers: 4, Calendars: 9, CalDates: 9, Shapes: 9, ShapePtsPer: 3, Trips: 9, Freqs: 3, StopTimesPer: 4}
+	sz := sgen.Size{Agencies: 2, Routes: 4, Stops: 12, Transfers: 4, Calendars: 9, CalDates: 9, Shapes: 9, ShapePtsPer: 3, Trips: 9, Freqs: 3, StopTimesPer: 4}
 	var ms [2]*sgen.Model
 	var bufs [2]*core.ROBuf
 	for i := range ms {
@@ -282,6 +282,17 @@ func c06Static(c *core.Ctx) {
 			ms[i].Calendar[k].Start, ms[i].Calendar[k].End = pool[4], pool[3]
 		}
 		ms[i].Agencies[0].TZ = sgen.Zones[(c.Index*2+i)%len(sgen.Zones)]
+		// nested stations with unspecified wheelchair values: station <- station <- platform chains, so that with the
+		// inheritance option a value has to travel two levels (an order-dependent pass shows up as nondeterminism)
+		if perm := r.Perm(len(ms[i].Stops)); r.Chance(2, 3) {
+			for k := 0; k+2 < len(perm) && k < 9; k += 3 {
+				root, mid, leaf := perm[k], perm[k+1], perm[k+2]
+				ms[i].Stops[root].Parent, ms[i].Stops[root].LocType, ms[i].Stops[root].Wheelchair = -1, 1, 1+r.Intn(2)
+				ms[i].Stops[mid].Parent, ms[i].Stops[mid].LocType, ms[i].Stops[mid].Wheelchair = root, 1, 0
+				ms[i].Stops[leaf].Parent, ms[i].Stops[leaf].LocType, ms[i].Stops[leaf].Wheelchair = mid, r.Intn(3), 0
+			}
+			c.Feature("static-nested-stations-unspecified-wheelchair")
+		}
 		a := sgen.Tables(ms[i])
 		if r.Chance(1, 3) {
 			sgen.Corrupt(a, r, 1+r.Intn(3)) // determinism also holds for feeds with rejected rows
